@@ -83,12 +83,25 @@ def dataOf : Sexp → Option Data
       | _ => Option.none).map .rows
   | _ => Option.none
 
+-- a name of `columns=` may be an int: `str(key) if is_int(key)` (_dictable.py:365), as for `d[1] = v` (`keyOf`)
 def columnsOf : Sexp → Option (Option (List String))
   | .atom "N" => some Option.none
-  | x => match strsOf x with
+  | .node (.atom "L" :: xs) => match xs.mapM keyOf with
     | some [] => Option.none
     | some cs => some (some cs)
     | Option.none => Option.none
+  | _ => Option.none
+
+/-- `columns` given as ONE string and no data (`dictable([], 'ab')`, `dictable(None, 'ab', c = ..)`): the one name `'ab'`, i.e. `columns = ['ab']`.
+    With data a single string means something else (`{columns : data}`, an excel sheet name): not modelled, `bad-op`. -/
+def columnsOfFor (data : Sexp) (columns : Sexp) : Option (Option (List String)) :=
+  match columns, data with
+  | .atom a, .atom "N" | .atom a, .node [.atom "L"] =>
+      if a == "N" then some Option.none else
+      match cellOf (.atom a) with
+      | some (.str s) => some (some [s])
+      | _ => Option.none
+  | _, _ => columnsOf columns
 
 def fnOf : Sexp → Option Fn
   | .node [.atom "fn", .atom "idcol", a] => (strOf a).map .idcol
@@ -117,7 +130,7 @@ def parseOp (op : String) (args : List Sexp) : Option Op :=
   | "new", [dst, data, columns, kwargs] => do
       let kw ← dictOf colValOf kwargs
       if !nodupKeys kw then Option.none
-      pure (.new (← handleOf dst) (← dataOf data) (← columnsOf columns) kw)
+      pure (.new (← handleOf dst) (← dataOf data) (← columnsOfFor data columns) kw)
   | "setitem", [h, k, v] => do pure (.setitem (← handleOf h) (← keyOf k) (← colValOf v))
   | "delitem", [h, k] => do pure (.delitem (← handleOf h) (← strOf k))
   | "update", [h, kvs] => do
